@@ -47,7 +47,7 @@ pub struct BuzHash {
     hash_sum: u32,
     buzhash_table: Vec<u32>,
     window_full: bool,
-    last_input: u8,
+    last_input: Option<u8>,
     repeated_input: usize,
 }
 
@@ -61,16 +61,26 @@ impl BuzHash {
             hash_sum: 0,
             buzhash_table: Self::generate_seeded_table(BUZHASH_SEED),
             window_full: false,
-            last_input: 0,
+            last_input: None,
             repeated_input: 0,
         }
     }
     fn generate_seeded_table(seed: u32) -> Vec<u32> {
         BUZHASH_TABLE.iter().map(|x| x ^ seed).collect()
     }
+    // Keep track of how many times in a row the same value has been pushed to the window.
+    fn count_repeated_input(&mut self, in_val: u8) {
+        if self.last_input == Some(in_val) {
+            self.repeated_input += 1;
+        } else {
+            self.repeated_input = 0;
+            self.last_input = Some(in_val);
+        }
+    }
     /// Should be used for processing input until hash is valid.
     pub fn init(&mut self, in_val: u8) {
         if !self.window_full {
+            self.count_repeated_input(in_val);
             let in_val = self.buzhash_table[in_val as usize];
             // Initialize sequence until window is full
             let shift = self.window - (self.index + 1);
@@ -87,12 +97,7 @@ impl BuzHash {
     pub fn input(&mut self, in_val: u8) {
         // If the buzhash window is full of the same value then there is no
         // need pushing another one of the same as it won't change the hash.
-        if in_val == self.last_input {
-            self.repeated_input += 1;
-        } else {
-            self.repeated_input = 0;
-            self.last_input = in_val;
-        }
+        self.count_repeated_input(in_val);
         if self.repeated_input < self.window {
             let in_val = self.buzhash_table[in_val as usize];
 
